@@ -420,7 +420,7 @@ use super::*;
 
 // ---------------------------------------------------------------- webauthn::verify on client-data templates
 /// authenticator data of exactly AD bytes (>= 37), all symbolic
-pub const AD: usize = 37;
+pub const AD: usize = 41; // 37 fixed bytes + 4 bytes of extension data (a verifier that signs only the first 37 bytes must be exposed)
 
 pub struct Assertion {
     pub payload32: [u8; 32],
